@@ -172,18 +172,17 @@ func (ch *Channel) runWriter(writerTerminate chan struct{}) error {
 	for {
 		select {
 		case what := <-ch.chWrite:
+			// a failed write (item that cannot be encoded for this link,
+			// transport error) must not stop the writer, otherwise the channel
+			// would stay open while discarding any further output.
+			// Discard the item and keep serving the queue; transport failures
+			// are detected and reported by the reader.
 			switch wh := what.(type) {
 			case message.Message:
-				err := ch.streamWriter.Write(wh)
-				if err != nil {
-					return err
-				}
+				ch.streamWriter.Write(wh) //nolint:errcheck
 
 			case frame.Frame:
-				err := ch.frameWriter.Write(wh)
-				if err != nil {
-					return err
-				}
+				ch.frameWriter.Write(wh) //nolint:errcheck
 			}
 
 		case <-writerTerminate:
